@@ -127,8 +127,9 @@ static void bfs_state_hook(const bfs_hist *h)
 }
 
 /* ------------------------------------------------------------------ mode 1 */
-enum { F_NONE, F_REJECT, F_OWNER, F_MALFORMED, F_VANISH, F_DANGLING, F_OPTION, F_N };
-static const char *FN[F_N] = { "none", "callback-rejects", "foreign-owner", "malformed-line", "file-vanishes", "dangling-symlink", "unknown-option" };
+enum { F_NONE, F_REJECT, F_OWNER, F_MALFORMED, F_VANISH, F_DANGLING, F_GROUP, F_SYMLINK, F_FILEPERM, F_DIRPERM, F_OPTION, F_N };   /* F_OPTION stays last */
+static const char *FN[F_N] = { "none", "callback-rejects", "foreign-owner", "malformed-line", "file-vanishes", "dangling-symlink", "foreign-group (group required)",
+                               "symlink (symlinks refused)", "file-mode-refused", "directory-mode-refused", "unknown-option" };
 static const char *EPN[6] = { "econf_readFileWithCallback", "econf_readConfigWithCallback", "econf_readDirsWithCallback", "econf_readDirsHistoryWithCallback",
                               "econf_readConfigWithCallback + CONFIG_DIRS option", "econf_readConfigWithCallback + CONFIG_DIRS option, drop-ins only (config name NULL)" };
 #define NEP 6
@@ -191,7 +192,7 @@ static bool cb(const char *filename, const void *data)
 static void exec(void)
 {
   sbuf sig = {0};
-  int need_root = f1kind == F_OWNER || f2kind == F_OWNER;
+  int need_root = f1kind == F_OWNER || f2kind == F_OWNER || f1kind == F_GROUP || f2kind == F_GROUP;
   if (need_root && geteuid() != 0) { mc_st->skipped++; return; }
   t_sync(&want);
   cur_n = t_ref_list(&want, cur_list);
@@ -217,10 +218,20 @@ static void exec(void)
     case F_OWNER: if (lchown(t_path[id], 12345, 12345) != 0) mc_die("lchown"); touched[k] = id; break;
     case F_MALFORMED: { sbuf c = {0}; sb_puts(&c, t_content[id]); sb_puts(&c, "[broken\n"); mc_write_file(t_path[id], c.s, c.len); sb_free(&c); touched[k] = id; break; }
     case F_DANGLING: unlink(t_path[id]); if (symlink("/nonexistent-verif-c20-target", t_path[id]) != 0) mc_die("symlink"); touched[k] = id; break;
+    case F_GROUP: if (lchown(t_path[id], 0, 23456) != 0) mc_die("lchown"); touched[k] = id; break;
+    case F_SYMLINK: { char tg[800]; snprintf(tg, sizeof tg, "%s.target", t_path[id]); mc_write_file(tg, t_content[id], strlen(t_content[id]));
+                      unlink(t_path[id]); if (symlink(tg, t_path[id]) != 0) mc_die("symlink"); touched[k] = id; break; }
+    case F_FILEPERM: if (chmod(t_path[id], 0600) != 0) mc_die("chmod"); touched[k] = id; break;
+    case F_DIRPERM: { char d[800]; snprintf(d, sizeof d, "%s", t_path[id]); char *sl = strrchr(d, '/'); *sl = 0; if (chmod(d, 0700) != 0) mc_die("chmod dir"); touched[k] = id; break; }
     }
   }
   econf_reset_security_settings();
-  if (need_root) econf_requireOwner(0);
+  for (int k = 0; k < 2; k++) {
+    if (kinds[k] == F_OWNER) econf_requireOwner(0);
+    if (kinds[k] == F_GROUP) econf_requireGroup(0);
+    if (kinds[k] == F_SYMLINK) econf_followSymlinks(false);
+    if (kinds[k] == F_FILEPERM || kinds[k] == F_DIRPERM) econf_requirePermissions(0044, 0055);   /* every other file (0644) and directory (0755) passes */
+  }
 
   ledger_reset(); ledger_in_lib = 1;
   econf_file *kf = SENT_KF, *own = NULL; econf_file **hist = SENT_HIST; size_t hsize = 777;
@@ -269,7 +280,11 @@ static void exec(void)
 restore:
   ledger_in_lib = 0;
   econf_reset_security_settings();
-  for (int k = 0; k < 2; k++) if (touched[k] >= 0) { unlink(t_path[touched[k]]); mc_write_file(t_path[touched[k]], t_content[touched[k]], strlen(t_content[touched[k]])); }
+  for (int k = 0; k < 2; k++) if (touched[k] >= 0) {
+    char tg[800]; snprintf(tg, sizeof tg, "%s.target", t_path[touched[k]]); unlink(tg);
+    snprintf(tg, sizeof tg, "%s", t_path[touched[k]]); char *sl = strrchr(tg, '/'); *sl = 0; chmod(tg, 0755);
+    unlink(t_path[touched[k]]); mc_write_file(t_path[touched[k]], t_content[touched[k]], strlen(t_content[touched[k]]));
+  }
   mc_st->compared++;
   if (f1kind != F_NONE) mc_st->nontrivial++;
   if (rc != ECONF_SUCCESS) mc_extra(0, "reads_that_failed", 1);
